@@ -304,3 +304,11 @@ def m4(ctx):
                       "get_properties_with_data writes the data property into the shared property table: the answer for one href / one "
                       "report leaks into the next"))
     return obs
+
+
+@rule("C17", "M5", floor=3, kind="N",
+      desc="ETag and data of one answer belong to the same version: the body is fetched by the etag that is reported "
+           "(same obligations as C02/E4)")
+def m5(ctx):
+    from .c02 import e4
+    return e4(ctx)
